@@ -144,8 +144,11 @@ class TableMeasure(LevyMeasure):
         from fractions import Fraction
         if a > b:
             raise ValueError("Expected a<b when integrating the levy measure")
-        lo = self.knots[0] if math.isinf(a) else max(Fraction(a), self.knots[0])
-        hi = self.knots[-1] if math.isinf(b) else min(Fraction(b), self.knots[-1])
+        def clip(x):
+            if math.isinf(x):
+                return self.knots[0] if x < 0 else self.knots[-1]
+            return min(max(Fraction(x), self.knots[0]), self.knots[-1])
+        lo, hi = clip(a), clip(b)
         tot = Fraction(0)
         for k0, k1, h in zip(self.knots, self.knots[1:], self.heights):
             x0, x1 = max(k0, lo), min(k1, hi)
